@@ -12,12 +12,12 @@ for seed in seeds:
     r = getattr(m, func)(tier='quick', seed=seed, work=w, focus=focus, ncases=n)
     print(seed, r['evaluations'], r['distinct_nontrivial'], 'dis', len(r['disagreements']), 'ora', len(r['oracle_failures']), r.get('skipped'))
     for d in r['disagreements'][:3]:
-        print('  DIS', d.get('what'), [x[:300] for x in d.get('details', [])], d.get('flags'), d.get('env'), (d.get('stderr') or '')[:200])
-        print('     src', json.dumps(d.get('src'), ensure_ascii=False)[:600]); print('     dst', json.dumps(d.get('dst'), ensure_ascii=False)[:600])
+        print('  DIS', d.get('what'), [x[:160] for x in d.get('details', [])], d.get('flags'), d.get('env'), (d.get('stderr') or '')[:100])
+        if '-v' in sys.argv: print('     src', json.dumps(d.get('src'), ensure_ascii=False)[:600]); print('     dst', json.dumps(d.get('dst'), ensure_ascii=False)[:600])
     seen = set()
     for d in r['oracle_failures']:
         if d['signature'] in seen: continue
         seen.add(d['signature'])
         print('  ORA', d['signature'], d['what'][:200], d['input'].get('flags'), d['input'].get('env'))
-        print('     src', json.dumps(d['input'].get('src'), ensure_ascii=False)[:500]); print('     dst', json.dumps(d['input'].get('dst'), ensure_ascii=False)[:500])
+        if '-v' in sys.argv: print('     src', json.dumps(d['input'].get('src'), ensure_ascii=False)[:500]); print('     dst', json.dumps(d['input'].get('dst'), ensure_ascii=False)[:500])
 shutil.rmtree(w, ignore_errors=True)
